@@ -66,6 +66,9 @@ pub struct Ctx {
     pub specials: Vec<u128>,
     /// indices of writable fields in declaration order (builder argument order)
     pub writable: Vec<usize>,
+    /// some field names a bit twice: write semantics are unspecified, only totality and profile
+    /// independence are checked (C16)
+    pub loose: bool,
 }
 
 impl Ctx {
@@ -139,7 +142,8 @@ impl Ctx {
             }
         }
         let writable = (0..fields.len()).filter(|i| fields[*i].writable).collect();
-        Ctx { layout, fields, base_mask, specials, writable }
+        let loose = layout.fields.iter().any(|f| !model::rules::ranges_disjoint(f));
+        Ctx { layout, fields, base_mask, specials, writable, loose }
     }
 }
 
